@@ -108,4 +108,17 @@ Theorem C08_format_fragment_ends_with_one_newline :
   recon (cfg_rs cfg) false (removelast (fm_final alnum cfg segs)) ++ rs_newline (cfg_rs cfg).
 Proof. exact format_fragment_ends_with_one_newline. Qed.
 
+(* the end-of-file clause, unconditionally, for programs of the fragment with declaration sections *)
+From PasfmtVerif Require Import Model.Fragment Proofs.FragmentProofs Proofs.FragmentParentsProofs Proofs.FragmentUnitProofs Model.Format Proofs.FormatFragmentProofs.
+Theorem C08_format_fragment_unit_ends_with_one_newline :
+  forall (alnum : bytes -> bool) (cfg : fconfig) (s out : bytes) (segs : list seg)
+    (ds : list decl) (ss : stmts),
+  wf ss = true ->
+  format_model alnum cfg s = inl out ->
+  lex_segments s = Some segs ->
+  map seg_ty segs = render_unit ds ss ->
+  out =
+  recon (cfg_rs cfg) false (removelast (fm_final alnum cfg segs)) ++ rs_newline (cfg_rs cfg).
+Proof. exact format_fragment_unit_ends_with_one_newline. Qed.
+
 
